@@ -68,6 +68,20 @@ pub mod env {
         std::mem::forget(m);
         (r, left)
     }
+    /// C11: would recover_with_wal() replay a WAL entry stamped `ts` that is in no segment, when the listed
+    /// segments have these maximum stamps? (Kani: S5-extracted threshold; natively: the real recovery)
+    pub fn wal_only_entry_replayed(seg_max: [u64; 2], ts: u64) -> bool {
+        use redis_sim::streaming::{Manifest, RecoveredState, RecoveryStats};
+        use redis_sim::streaming::manifest::SegmentInfo;
+        let mut m = Manifest::new(1);
+        m.segments.push(SegmentInfo { id: 0, key: String::new(), record_count: 1, size_bytes: 1, min_timestamp: 0, max_timestamp: seg_max[0] });
+        m.segments.push(SegmentInfo { id: 1, key: String::new(), record_count: 1, size_bytes: 1, min_timestamp: 0, max_timestamp: seg_max[1] });
+        let rs = RecoveredState { manifest: m, checkpoint_state: None, deltas: Vec::new(), stats: RecoveryStats::default() };
+        let t = redis_sim::streaming::recovery::verif_wal_replay_threshold(&rs);
+        std::mem::forget(rs);
+        // WalRotator::recover_entries_after keeps entries with stamp >= threshold (checked by c11::entries_after)
+        ts >= t
+    }
     /// does run() answer the `count` GETs its collector consumed from this buffer, at this threshold?
     /// (Kani: run()'s own admission condition, extracted by S3; natively: the real run() over a duplex stream)
     pub fn consumed_gets_answered(_buffer: &[u8], count: usize, threshold: usize) -> bool {
